@@ -82,6 +82,7 @@ inductive Call
   | acq (l : Mode) (isTry : Bool)   -- nsync_mu_lock / rlock / trylock / rtrylock
   | rel (l : Mode)                  -- nsync_mu_unlock / runlock / unlock_without_wakeup
   | wait                            -- nsync_cv_wait*, nsync_mu_wait*, nsync_wait_n with this mutex
+  | observe                         -- nsync_mu_debug_state, nsync_mu_debug_state_and_waiters (property C16)
 deriving DecidableEq, Repr
 
 inductive Ev
@@ -172,18 +173,33 @@ def applyWrite (s : State) (t : Tid) (new : Nat) (ord : Ord) (isRmw : Bool) : Ex
       | .set => if s.sp = none then .ok { s with word := new, w := w', rs := rs', sp := some t, vc := vc', relc := relc', released := released' } else .error "spinlock taken while held"
       | .clear => if s.sp = some t then .ok { s with word := new, w := w', rs := rs', sp := none, vc := vc', relc := relc', released := released' } else .error "spinlock released by a thread that does not hold it"
 
+/-- A debug-state caller may only toggle the queue spinlock: the word after its write is the word
+    before with MU_SPINLOCK (2) added or removed, every other bit untouched. -/
+def spinOnly (old new : Nat) : Bool :=
+  ((decode old).spin = false && new = old + 2) || ((decode old).spin = true && new + 2 = old)
+
+def inObserve (s : State) (t : Tid) : Bool :=
+  match s.call t with | some (.observe, _) => true | _ => false
+
+def Ev.tid : Ev → Tid
+  | .call t _ | .ret t _ | .ld t _ | .casFail t _ _ | .cas t _ _ _ | .st t _ _ | .annAcq t _ | .annRel t _ => t
+
 def step (s : State) : Ev → Except String State
   | .ld _ v => if v = s.word then .ok s else .error "load observed a value the model's word does not hold"
   | .casFail _ exp obs =>
       if obs = s.word ∧ exp ≠ obs then .ok s else .error "failed CAS inconsistent with the model's word"
   | .cas t exp new ord =>
-      if exp = s.word then applyWrite s t new ord true else .error "successful CAS whose expected value is not the model's word"
+      if exp = s.word then
+        if inObserve s t && !spinOnly s.word new then .error "a debug-state caller changed more than the spinlock bit"
+        else applyWrite s t new ord true
+      else .error "successful CAS whose expected value is not the model's word"
   | .st t new ord =>
       -- a plain store is sound only while the storing thread owns the spinlock AND the writer bit (nobody
       -- else can then write the word), and it must be a release store (a relaxed store would break the
       -- release sequence that carries earlier critical sections to later acquirers)
       if s.sp = some t ∧ s.w = some t then
-        if ord.isRel then applyWrite s t new ord false else .error "plain store to the word must be a release store"
+        if inObserve s t then .error "a debug-state caller must not store to the word"
+        else if ord.isRel then applyWrite s t new ord false else .error "plain store to the word must be a release store"
       else .error "plain store to the word by a thread that does not hold the spinlock and the writer bit"
   | .call t c =>
       match s.call t with
@@ -201,6 +217,7 @@ def step (s : State) : Ev → Except String State
             if s.held t ≠ .none then
               .ok { s with call := setFn s.call t (some (c, s.held t)), held := setFn s.held t .none }
             else .error "contract: waiting without holding the mutex"
+        | .observe => .ok { s with call := setFn s.call t (some (c, .none)) }
   | .ret t ok =>
       match s.call t with
       | none => .error "return without call"
@@ -219,10 +236,15 @@ def step (s : State) : Ev → Except String State
           if shareOf s t = m ∧ s.sp ≠ some t then
             .ok { s with call := setFn s.call t none, held := setFn s.held t m }
           else .error "wait returned without owning the mutex in the caller's mode"
+      | some (.observe, _) =>
+          if s.sp ≠ some t then .ok { s with call := setFn s.call t none }
+          else .error "debug-state call returned while holding the spinlock"
   | .annAcq t l =>
+      if inObserve s t then .error "lock annotation inside a debug-state call" else
       if shareOf s t = l.toShare ∧ s.ann t = .none then .ok { s with ann := setFn s.ann t l.toShare }
       else .error "annotation claims an acquisition the thread does not own"
   | .annRel t l =>
+      if inObserve s t then .error "lock annotation inside a debug-state call" else
       if s.ann t = l.toShare then .ok { s with ann := setFn s.ann t .none }
       else .error "annotation releases what was not annotated as held"
 
